@@ -1,7 +1,7 @@
 """C14 — serde bridge: typed values are searched as their JSON image and decode back."""
 import json, os
 import common
-from common import tlc, tlc_ok, build_driver, run_driver, judge, ToolError
+from common import tlc, tlc_ok, tlc_must_fail, build_driver, run_driver, judge, ToolError
 
 
 def run(prop, tier, seed, work, ev):
@@ -14,7 +14,12 @@ def run(prop, tier, seed, work, ev):
                "variants, serialised by a dynamic Serialize implementation calling exactly the serializer method of each node; and 53 JSON values "
                "decoded into each of 24 Rust types (right and wrong shapes). Non-trivial: everything but bare bool/unit/none trees.")
     ev.trusted += ["Serde.tla Image as the reading of serde_json's documented data-model mapping (serde_json's own image is also compared)",
-                   "serde_json::from_value as the reference for decoding (differential)"]
+                   "Decode.tla Dec as the reading of how serde_json::from_value reads each shape (serde_json's own answers are judged by it too: a "
+                   "disagreement is a tool error); for shapes outside Decode.tla serde_json::from_value is the reference (differential)"]
+    tlc_ok("mc/MC_Decode.tla", "MC_Decode.cfg", work, ev=ev, timeout=3000,
+           label="decoding as coded (Deserializer protocol of variable.rs x serde's visitors) = Dec (Level 0) on 36 types x witnesses and their one-edit mutations; images decode to themselves")
+    for nc in ("seq_leftover_ok", "map_leftover_ok", "ident_any"):
+        tlc_must_fail("mc/MC_Decode.tla", "MC_Decode_neg_%s.cfg" % nc, work, invariant="Inv_L1", ev=ev)
     c = work.path("serde.cases")
     r = tlc("gen/Gen_Serde.tla", "Gen.cfg", work, env={"OUT": c, "DEEP": "2" if tier == "thorough" else "1"}, workers=1, timeout=1800)
     if r.rc != 0 or not os.path.exists(c):
@@ -26,7 +31,21 @@ def run(prop, tier, seed, work, ev):
     if ref:
         raise ToolError("Serde.tla disagrees with serde_json itself on %d tree(s): specification bug, e.g. %s" % (len(ref), json.dumps(ref[0]["rec"]["tree"])[:300]))
     ev.add_judged("data-model trees (encode) and JSON pool x type zoo (decode)", stats, rej, obs, nsamples=4)
-    return rej
+    # decoding judged by the specification (Decode.tla): every witness of every type and its edits, into every type
+    c = work.path("dec.cases")
+    r = tlc("gen/Gen_Decode.tla", "Gen.cfg", work, env={"OUT": c, "DEEP": "2" if tier == "thorough" else "1"}, workers=1, timeout=3000)
+    if r.rc != 0 or not os.path.exists(c):
+        raise ToolError("Gen_Decode failed:\n" + r.tail())
+    obs = c + ".obs"
+    run_driver(drv, ["run", "serde"], c, obs)
+    stats, rej2 = judge("tv/TV_Decode.tla", None, obs, work)
+    ref = [x for x in rej2 if (x["exp"] or {}).get("why") == "reference"]
+    if ref:
+        raise ToolError("Decode.tla disagrees with serde_json itself on %d value(s): specification bug, e.g. %s into %s" %
+                        (len(ref), json.dumps(ref[0]["rec"]["json"])[:300], ref[0]["exp"].get("ty")))
+    ev.add_judged("witnesses of 38 types and their %s mutations, each decoded into all 38 types: the library's answer is Dec(T, v) (same failure, or the same value by its image)"
+                  % ("one- and two-edit" if tier == "thorough" else "one-edit"), stats, rej2, obs, nsamples=2)
+    return rej + rej2
 
 
 def replay(prop, path, work):
@@ -37,7 +56,7 @@ def replay(prop, path, work):
         f.write(json.dumps(rec) + "\n")
     obs = work.path("o")
     run_driver(drv, ["run", "serde"], cases, obs)
-    stats, rej = judge("tv/TV_Serde.tla", None, obs, work, chunks=1)
+    stats, rej = judge("tv/TV_Decode.tla" if rec.get("kind") == "dec" else "tv/TV_Serde.tla", None, obs, work, chunks=1)
     o = json.loads(open(obs).read())
     print("observation:", json.dumps(o.get("out"))[:900])
     if rej:
